@@ -153,4 +153,20 @@ theorem sale_ser_eq (ops : CellOps R) (s : SaleData) :
 /-- the wrappers whose `serialize` is one builder program: regenerated cell = the hand model's `cellOf` -/
 theorem build_cellOf (ops : CellOps R) (op : BOp R) : (build ops.make op).map (·.cell) = cellOf ops op := (cellOf_eq_build ops op).symm
 
+/-! ### `HashUpdate` (tlb/utils.py) -/
+
+theorem hu_init (o n : Bytes) : HashUpdate_init o n = some ⟨o, n⟩ := rfl
+
+theorem slice_0 {α : Type} (xs : List α) (n : Nat) : Py.slice xs 0 n = xs.take n := by
+  simp [Py.slice]
+
+/-- `tag = load_bytes(1)[:1]; if tag != b'r': raise` -/
+theorem hu_de_eq : HashUpdate_deserialize view = (loadHashUpdate : SOp R HashUpd) := by
+  unfold HashUpdate_deserialize loadHashUpdate
+  simp only [bind_def, pure_def, sop_pure_bind, sop_bind_pure, sop_bind_assoc, sop_fail_bind, sop_ite_bind, ofOption_bind_some, ofOption_some,
+    hu_init, slice_0, bne_iff_ne, ne_eq]
+
+theorem hu_ser_eq (h : HashUpd) : HashUpdate_serialize mk h = build mk (hashUpdateB h : BOp R) := by
+  cases h; simp [HashUpdate_serialize, build, hashUpdateB, run_andThen, Option.bind_assoc]
+
 end TonVerif.Proofs.SrcWrap
